@@ -48,3 +48,8 @@ add("C14", "exploration",
     "Trusted: ref.Unframe/ref.Unpack. Allocation is a process-wide counter that advances in span-sized steps: min of three attempts, 64 KiB slack, so only gross over-allocation (the attack the property is about) is detectable.",
     "property-based round-trip + exhaustive cut enumeration + differential against an independent unframer, allocation metering (rapid)",
     "DESIGN.md section 3, C14")
+add("C20", "exploration",
+    "Generated aircraftlib.Z values over every union member (numeric extremes, NaN/Inf, out-of-range enums, nested lists, groups, arbitrary bytes in Text/Data) and Defaults structs with fields set/unset are rendered by text.Marshal, generated String() and the typed List.String() methods; a strict parser of the text grammar must consume the output, every shown value must be recovered exactly and equal what the generated accessors return, and the text must be identical on a fresh encoder, on a second rendering and on an encoder that has served up to 15000 earlier Encode calls.",
+    "Trusted: ref.ParseText, the expected-tree builders in harness/mirror (field names/order transcribed from aircraft.capnp). Only the aircraftlib schemas are exercised; spelling of inf/nan is not constrained.",
+    "property-based round-trip through an independent parser + metamorphic history independence (rapid)",
+    "DESIGN.md section 4, C20")
